@@ -89,8 +89,11 @@ def shard_e1(col, shard, ngrammars, ninputs):
             cases.append(R.Case(g, t))
     # outer choices whose earlier alternative holds an inner construct with cuts in its options (the last included) and then fails
     from props.c02 import cut_scope_grammar
-    for _ in range(max(2, ngrammars // 2)):
-        g, texts = cut_scope_grammar(rng)
+    from props.c02 import CUT_WRAPS
+    per_shard = max(2, ngrammars // 2)
+    for i in range(per_shard):
+        # every kind of scope in turn (all shards together cover each kind several times), not a lottery
+        g, texts = cut_scope_grammar(rng, wrap=CUT_WRAPS[(shard * per_shard + i) % len(CUT_WRAPS)])
         col.count('family.cut-scope')
         for t in texts:
             cases.append(R.Case(g, t, tag='cut-scope'))
